@@ -502,6 +502,15 @@ def _clean_up_state(state: State) -> None:
                 for uid in parent_flow_state.child_flow_uids
                 if uid != flow_state_uid
             ]
+        # A flow activated from several flows is listed as a child by each of them, not only
+        # by the flow that started it first (its parent)
+        for other_flow_state in state.flow_states.values():
+            if flow_state_uid in other_flow_state.child_flow_uids:
+                other_flow_state.child_flow_uids = [
+                    uid
+                    for uid in other_flow_state.child_flow_uids
+                    if uid != flow_state_uid
+                ]
         # Open scopes must not keep a reference to the removed flow
         for other_flow_state in state.flow_states.values():
             for scope_flow_uids, _ in other_flow_state.scopes.values():
